@@ -336,6 +336,23 @@ fn e2_history(srv: &Srv, cfg: &SrvCfg, order: &[u8], kill_by_error: bool, natura
         if !ok || std::fs::read(&path).ok().as_deref() != Some(&body[..]) {
             viol.push(("first-transfer-disturbed".into(), "the refused retransmitted WRQ disturbed the first transfer (it did not complete byte-identically)".into(), facts(&[("overwrite", json!(false))])));
         }
+        // a late duplicate of the request, after the upload has completed: refused again, and the completed file stays
+        // as it is from then on (also after everything the request may have started has run its course)
+        let mut c3 = Client::new(srv.addr);
+        c3.to_server(&rc::request(true, name.as_bytes(), &opts));
+        let r3 = reply_or_quiet(srv, &mut c3);
+        trace.push(format!("WRQ #3 (late duplicate, fresh endpoint) -> {}", r3.as_ref().map(|(b, _)| rc::describe(b)).unwrap_or("none".into())));
+        match r3.as_ref().map(|(b, _)| rc::decode(b)) {
+            Some(Ok(RPacket::Error { code: 6, .. })) => {}
+            other => {
+                viol.push(("late-duplicate-wrq-not-refused".into(), format!("a WRQ for the name of a completed upload without --overwrite was answered with {:?}", other.map(|x| x.map(|p| format!("{:?}", p).chars().take(40).collect::<String>()))), facts(&[("overwrite", json!(false))])));
+                c3.to_peer_guarded(&rc::error(0, "abort"));
+            }
+        }
+        quiesce();
+        if std::fs::read(&path).ok().as_deref() != Some(&body[..]) {
+            viol.push(("completed-file-lost".into(), "after a late duplicate WRQ (no --overwrite) the completed upload no longer holds its content".into(), facts(&[("overwrite", json!(false)), ("effect", json!("late-duplicate"))])));
+        }
         let _ = std::fs::remove_file(&path);
         return (viol, trace);
     }
@@ -550,6 +567,16 @@ pub fn check(tier: Tier) -> Outcome {
                 cells_e.push(json!({"srv": s.to_json(), "natural_death": true}));
             } else {
                 cells_e.push(json!({"srv": s.to_json()}));
+                if !overwrite {
+                    // distinct send/receive directories (all flags given / send directory by fallback): the existence
+                    // check must look where the upload is stored
+                    for rd_only in [false, true] {
+                        let mut s2 = s.clone();
+                        s2.distinct = true;
+                        s2.rd_only = rd_only;
+                        cells_e.push(json!({"srv": s2.to_json()}));
+                    }
+                }
                 if overwrite && tier == Tier::Thorough {
                     cells_e.push(json!({"srv": s.to_json(), "natural_death": true}));
                 }
@@ -643,7 +670,7 @@ pub fn check(tier: Tier) -> Outcome {
     if let Ok(res) = h_ab.join() {
         out.absorb(res, nab);
     }
-    out.rule = "(1) E1 Mode A, real receiving Worker: every abort point k = 0..n of uploads of n = 1..5 blocks x windowsize 1..3 x cause {peer ERROR at answer k, peer silence from answer k (6 timeouts), write error injected with RLIMIT_FSIZE at every block boundary and inside a block} x {clean-on-error, keep-on-error}; oracle on the tree after the worker thread has been joined: failed+clean => file absent, failed+keep => file is a prefix of the in-order payloads, completed => file intact. (2) two real Workers on one path (stale upload accepted first, then a fresh one that completes): all interleavings of the fresh worker's DATA steps with the stale worker's steps (0..2 DATA, then ERROR or six timeouts), clean and keep; oracle: from the fresh upload's completion on, at every observation point, the file exists and equals its content. (3) the same history through the real Server (retransmitted WRQ from one endpoint) in overwrite and no-overwrite mode, both port modes; (3b) single uploads through the real Server that fail after j = 0..2 blocks by peer ERROR (and by silence with timeout=1), onto a fresh name and onto an existing file (--overwrite), x {clean, keep} x port modes. non-trivial = executions with a distinct history.".into();
+    out.rule = "(1) E1 Mode A, real receiving Worker: every abort point k = 0..n of uploads of n = 1..5 blocks x windowsize 1..3 x cause {peer ERROR at answer k, peer silence from answer k (6 timeouts), write error injected with RLIMIT_FSIZE at every block boundary and inside a block} x {clean-on-error, keep-on-error}; oracle on the tree after the worker thread has been joined: failed+clean => file absent, failed+keep => file is a prefix of the in-order payloads, completed => file intact. (2) two real Workers on one path (stale upload accepted first, then a fresh one that completes): all interleavings of the fresh worker's DATA steps with the stale worker's steps (0..2 DATA, then ERROR or six timeouts), clean and keep; oracle: from the fresh upload's completion on, at every observation point, the file exists and equals its content. (3) the same history through the real Server (retransmitted WRQ from one endpoint) in overwrite and no-overwrite mode (the latter also with distinct send/receive directories, and with a late duplicate WRQ after completion), both port modes; (3b) single uploads through the real Server that fail after j = 0..2 blocks by peer ERROR (and by silence with timeout=1), onto a fresh name and onto an existing file (--overwrite), x {clean, keep} x port modes. non-trivial = executions with a distinct history.".into();
     out.assumptions = vec![
         "the check-then-create window between file.exists() in the listener and File::create in the freshly spawned worker is not scheduled by the harness (each worker has created the file before the next starts)".into(),
         "both uploads of a name carry the same content (a retransmitted request), so only clean-up, not concurrent writing, can alter the file".into(),
